@@ -41,6 +41,10 @@ type Tag struct {
 	Rev      int    `json:"rev"`               // 1-based index into the linear history
 	Name     string `json:"name,omitempty"`    // the project's `name` in dawn.toml
 	Requires []Req  `json:"requires"`
+	// Stale, if HasStale, is the requirement list of a legacy ".dawnconfig" file that the
+	// checkout still contains next to dawn.toml (dawn reads it only when dawn.toml is absent).
+	HasStale bool  `json:"has_stale,omitempty"`
+	Stale    []Req `json:"stale_dawnconfig_requires,omitempty"`
 }
 
 // RepoSpec is one repository: a linear history of NRevs revisions.
@@ -58,6 +62,8 @@ type Universe struct {
 	// ReverseDecl writes every dawn.toml with requirement names whose sorted order is the
 	// reverse of the declaration order, and lists equal-version tags in reverse order.
 	ReverseDecl bool `json:"reverse_decl,omitempty"`
+	// ExtraFiles adds ordinary files (BUILD.dawn, src/lib.txt) to every project checkout.
+	ExtraFiles bool `json:"extra_files,omitempty"`
 }
 
 // Edges is the number of requirement edges (a size measure for minimal counterexamples).
@@ -129,10 +135,16 @@ func SplitMajor(p string) (string, string) {
 
 // ---- the fake repository --------------------------------------------------------------------
 
+type outFile struct {
+	rel  string
+	data []byte
+}
+
 type file struct {
 	name     string
 	requires []Req
 	toml     []byte
+	out      []outFile // the checkout, in the order in which it is written
 }
 
 // Revision implements vcs.Revision.
@@ -165,6 +177,7 @@ type Repo struct {
 	refs     map[string]string
 	versions []*vcs.Version
 
+	hooks   *Hooks
 	fetches atomic.Int64
 	logMu   sync.Mutex
 	log     []string // "<dir>@<rev index>" of every FetchRevision
@@ -242,7 +255,67 @@ func (r *Repo) FetchRevision(ctx context.Context, projectPath string, revision v
 	if err := os.MkdirAll(projectDir, 0o700); err != nil {
 		return err
 	}
-	return os.WriteFile(filepath.Join(projectDir, "dawn.toml"), f.toml, 0o600)
+	// a checkout is not atomic: the files appear one at a time, in a fixed order
+	h := r.hooks
+	for i := 0; ; i++ {
+		if h != nil {
+			n := int(h.written.Load()) // files written so far by this world
+			if h.DieAfterFiles >= 0 && n == h.DieAfterFiles {
+				os.Exit(DieExitCode) // process death: nothing deferred runs, files so far persist
+			}
+			if h.ParkAfterFiles >= 0 && n == h.ParkAfterFiles && h.parkOnce.CompareAndSwap(false, true) {
+				h.Parked <- struct{}{}
+				<-h.Release
+			}
+		}
+		if i == len(f.out) {
+			break
+		}
+		p := filepath.Join(projectDir, filepath.FromSlash(f.out[i].rel))
+		if err := os.MkdirAll(filepath.Dir(p), 0o700); err != nil {
+			return err
+		}
+		if err := os.WriteFile(p, f.out[i].data, 0o600); err != nil {
+			return err
+		}
+		if h != nil {
+			h.written.Add(1)
+		}
+	}
+	return nil
+}
+
+// DieExitCode is the exit status of a process killed by the DieAfterFiles hook.
+const DieExitCode = 7
+
+// Hooks interrupt checkouts. They are set before the world is used and never change.
+type Hooks struct {
+	// DieAfterFiles >= 0: the process dies (os.Exit) when exactly that many files have been
+	// written by FetchRevision calls of this world (0 = after the directory was created).
+	DieAfterFiles int
+	// ParkAfterFiles >= 0: the first checkout that reaches that many written files signals
+	// Parked and waits for Release before it continues.
+	ParkAfterFiles int
+	Parked         chan struct{}
+	Release        chan struct{}
+
+	written  atomic.Int64
+	parkOnce atomic.Bool
+}
+
+// SetHooks installs checkout hooks on every repository of the world.
+func (w *World) SetHooks(h *Hooks) {
+	for _, r := range w.order {
+		r.hooks = h
+	}
+}
+
+// CheckoutFiles is the number of files of the checkout of a tagged module version.
+func (w *World) CheckoutFiles(m Req) int {
+	if t := w.tags[m.Path][m.Version]; t != nil {
+		return len(t.rev.files[t.tag.Dir].out)
+	}
+	return 0
 }
 
 func renderTOML(name, version string, reqs []Req, reverse bool) []byte {
@@ -303,7 +376,15 @@ func Build(u *Universe) *World {
 				if t.Rev != i {
 					continue
 				}
-				rev.files[t.Dir] = &file{name: t.Name, requires: t.Requires, toml: renderTOML(t.Name, t.Version, t.Requires, u.ReverseDecl)}
+				f := &file{name: t.Name, requires: t.Requires, toml: renderTOML(t.Name, t.Version, t.Requires, u.ReverseDecl)}
+				if t.HasStale {
+					f.out = append(f.out, outFile{".dawnconfig", renderTOML(t.Name, "", t.Stale, u.ReverseDecl)})
+				}
+				f.out = append(f.out, outFile{"dawn.toml", f.toml})
+				if u.ExtraFiles {
+					f.out = append(f.out, outFile{"BUILD.dawn", []byte("# targets of " + t.Dir + "\n")}, outFile{"src/lib.txt", []byte(t.Version + "\n")})
+				}
+				rev.files[t.Dir] = f
 			}
 			repo.revs = append(repo.revs, rev)
 			parent = rev
